@@ -291,6 +291,10 @@ pub struct EpCfg {
     pub min_chunk_size: u32,
     pub max_payload_buffer_size: usize,
     pub connect_timeout: u16,
+    /// combined server: timeout for reading the protocol version (0 = library default 5 s)
+    pub pv_timeout: u16,
+    /// clients: timeout for the whole handshake (0 = disabled)
+    pub handshake_timeout: u16,
     pub handle_qos_after_disconnect: Option<u8>,
     // IoConfig
     pub write_buf: Option<(usize, usize, usize)>,
@@ -338,6 +342,8 @@ impl EpCfg {
             min_chunk_size: 32 * 1024,
             max_payload_buffer_size: 32 * 1024,
             connect_timeout: 0,
+            pv_timeout: 0,
+            handshake_timeout: 0,
             handle_qos_after_disconnect: None,
             write_buf: None,
             frame_read_rate: None,
@@ -383,10 +389,10 @@ impl EpCfg {
             static CFGS: RefCell<std::collections::HashMap<String, SharedCfg>> = RefCell::new(std::collections::HashMap::new());
         }
         let key = format!(
-            "{:?}|{}|{}|{}|{}|{}|{}|{}|{}|{}|{:?}|{:?}|{:?}|{:?}|{}",
+            "{:?}|{}|{}|{}|{}|{}|{}|{}|{}|{}|{:?}|{:?}|{:?}|{:?}|{}|{}|{}",
             self.ver, self.max_qos, self.max_size, self.max_receive, self.max_receive_size, self.max_topic_alias, self.max_send,
             self.min_chunk_size, self.max_payload_buffer_size, self.connect_timeout, self.handle_qos_after_disconnect,
-            self.write_buf, self.frame_read_rate, self.disconnect_timeout, self.tag
+            self.write_buf, self.frame_read_rate, self.disconnect_timeout, self.tag, self.pv_timeout, self.handshake_timeout
         );
         if let Some(c) = CFGS.with(|m| m.borrow().get(&key).cloned()) {
             return c;
@@ -409,6 +415,12 @@ impl EpCfg {
             .set_connect_timeout(Seconds(self.connect_timeout));
         if let Some(q) = self.handle_qos_after_disconnect {
             m = m.set_handle_qos_after_disconnect(Some(Self::qos(q)));
+        }
+        if self.pv_timeout != 0 {
+            m = m.protocol_version_timeout(Seconds(self.pv_timeout));
+        }
+        if self.handshake_timeout != 0 {
+            m = m.set_handshake_timeout(Seconds(self.handshake_timeout));
         }
         let mut io = IoConfig::new();
         if let Some((hi, lo, sz)) = self.write_buf {
